@@ -462,6 +462,27 @@ Theorem C09_validate_smiles_spec : forall (m : str) (ia : bool) (ncols : nat) (r
 Proof. exact validate_smiles_spec. Qed.
 Print Assumptions C09_validate_smiles_spec.
 
+(** check_pair with BOTH flags (compared on the `validate` cases flags#n for every combination of the flags): with
+    ignore_tautomers=True it is smiles_check on (mapped, truth); otherwise it answers True exactly when the mapping is accepted
+    against SOME enumerated tautomer of the truth (the enumeration is RDKit's: oracle input), None when the enumeration failed;
+    validate_smiles applies it record by record and column by column with the same method and the same two flags *)
+Theorem C09_check_pair_spec : forall (m : str) (ia : bool) (r1 r2 : ograph) (tauts : option (list ograph)),
+  check_pair m ia true r1 r2 tauts = Some (smiles_check_full m ia r1 r2) /\
+  (forall l, tauts = Some l ->
+     exists b, check_pair m ia false r1 r2 tauts = Some b /\
+       (b = true <-> exists t, In t l /\ smiles_check_full m ia r1 t = true)) /\
+  (tauts = None -> check_pair m ia false r1 r2 tauts = None).
+Proof. exact check_pair_spec. Qed.
+Print Assumptions C09_check_pair_spec.
+
+Theorem C09_validate_smiles_flags_spec : forall (m : str) (ia it : bool) (ncols : nat) (rows : list orowT),
+  length (validate_smiles_t m ia it ncols rows) = ncols /\
+  forall k i, (k < ncols)%nat -> (i < length rows)%nat ->
+    nth i (nth k (validate_smiles_t m ia it ncols rows) []) None =
+    check_pair m ia it (nth k (snd (nth i rows (None, None, []))) None) (fst (fst (nth i rows (None, None, [])))) (snd (fst (nth i rows (None, None, [])))).
+Proof. exact validate_smiles_t_spec. Qed.
+Print Assumptions C09_validate_smiles_flags_spec.
+
 (** smiles_check with its options is exact at the level of the API call: on two readable strings it answers True exactly when
     the graphs the method string selects, built with the given ignore_aromaticity, are isomorphic on typesGH + order pairs *)
 Theorem C09_smiles_check_exact : forall (m : str) (ia : bool) (G1 H1 G2 H2 : mgraph), wf G2 -> wf H2 ->
